@@ -270,6 +270,13 @@ func lockOp(_ int, acquire, read bool) intrinsicFn {
 				m.checkNamed("no-panic", "runlock of unlocked mutex", site, And(cg, Eq(rd, Const(64, 0))))
 				m.ghost[key+"r"] = Ite(cg, Sub(rd, Const(64, 1)), rd)
 			}
+			if acquire {
+				old, _ := m.ghost[key+"acq"].(*Term)
+				if old == nil {
+					old = TS.False
+				}
+				m.ghost[key+"acq"] = Or(old, cg)
+			}
 			if m.lockWatch != nil {
 				m.lockWatch.lockEvent(m, key, acquire, read, cg)
 			}
